@@ -42,6 +42,21 @@ class TaggedExc(Exception):
         self.tag = tag
 
 
+class TaggedKeyError(TaggedExc, KeyError):
+    """the exception a batch function reports for one request may belong to any family"""
+
+
+class TaggedRuntimeError(TaggedExc, RuntimeError):
+    pass
+
+
+class TaggedTimeout(TaggedExc, TimeoutError):
+    pass
+
+
+EXCFAM = {'plain': TaggedExc, 'key': TaggedKeyError, 'runtime': TaggedRuntimeError, 'timeout': TaggedTimeout}
+
+
 class Val:
     __slots__ = ('tag',)
 
@@ -117,7 +132,7 @@ def execute(sc):
                         continue
                     if beh == 'excval':
                         ctl.log('Yield', b=b, key=key, tag=tag, kind='exc')
-                        yield key, TaggedExc(tag)
+                        yield key, EXCFAM[sc.get('excfam', 'plain')](tag)
                     else:
                         ctl.log('Yield', b=b, key=key, tag=tag, kind='val')
                         yield key, Val(tag)
@@ -128,6 +143,8 @@ def execute(sc):
                 if raise_at and raise_at[0] == b and raise_at[1] >= len(its):
                     end('raise')
                     raise BatchError(b)
+                if sc.get('tail_dur', 0.0) > 0:      # work the function does after its last result (clean-up, commit ...)
+                    await asyncio.sleep(sc['tail_dur'])
                 end('ok')
             except asyncio.CancelledError:
                 end('cancel')
@@ -258,6 +275,12 @@ def execute(sc):
                 fn.max_batch_size = n
             for sm in sc.get('setmax', []):
                 sched.append((sm['at'], setmax, (sm['n'],)))
+
+            def collect():
+                import gc
+                gc.collect()       # a garbage collection at this instant (the harness keeps automatic collection off)
+            for t in sc.get('gc_at', []):
+                sched.append((t, collect, ()))
             rt.call_in_order(loop, t0, sched)
             await asyncio.sleep(ls.get('end', sc.get('end', 60.0)))
             ctl.log('Quiescent', loop=name)
